@@ -619,5 +619,10 @@ for r, what in (('R61', 'mixture_model_utils / cacgmm / cACG'), ('R62', 'cwmm / 
 for r, what in (('R71', 'mixture_model_utils / cacgmm / cACG'), ('R72', 'cwmm / cbmm / Watson / Bingham / distribution.utils'), ('R73', 'gmm / gaussian / vMF / gcacgmm / vmfcacgmm'),
                 ('R74', 'beamformer / beamformer_wrapper / math.solve'), ('R75', 'permutation_alignment / initializers'), ('R76', 'mask_module / sxr_module / si_sdr / utils')):
     C.append(dict(id=f'N13-{r}-broad-2', kind='neutral', properties=ALLP, note=f'independent broad refactoring (second set) of {what}', patch=f'neutral_patches/{r}.patch', edits=[]))
+# ---- eighth campaign: "performance / memory / robustness / clean-up" edits that are CORRECT (preallocated buffers with explicit dtypes and out=, in-place arithmetic on own temporaries,
+#      memoised pure helpers, exact fast paths, vectorised loops) - the neutral counterparts of what the seeded changes of rounds 8 and 9 imitate
+for r, what in (('R81', 'mixture_model_utils / cacgmm / cACG'), ('R82', 'cwmm / cbmm / Watson / Bingham / distribution.utils'), ('R83', 'gmm / gaussian / vMF / gcacgmm / vmfcacgmm'),
+                ('R84', 'beamformer / beamformer_wrapper / math.solve'), ('R85', 'permutation_alignment / initializers'), ('R86', 'mask_module / sxr_module / si_sdr / utils')):
+    C.append(dict(id=f'N16-{r}-performance', kind='neutral', properties=ALLP, note=f'independent correct performance / clean-up edits of {what}', patch=f'neutral_patches/{r}.patch', edits=[]))
 out.write_text(json.dumps(C, indent=1))
 print(len(C), 'variants ->', out)
